@@ -153,14 +153,13 @@ def model_line(case):
         return (f"pvv\t{common.dotted(case['pin'])}\t{common.dotted(str(case['idx']))}\t"
                 f"{common.dotted(case['pan'])}\t{case['ct']}")
     if k == 'pvv':
-        tsp, ct, _ = spec_pvv(case['pin'], case['key'], case['idx'], case['pan'])
-        return (f"pvv\t{common.dotted(case['pin'])}\t{common.dotted(str(case['idx']))}\t"
-                f"{common.dotted(case['pan'])}\t{ct.hex()}")
+        # the model computes the Triple DES encryption itself (Model/Des.lean)
+        return (f"pvv.tdes\t{common.dotted(case['pin'])}\t{common.dotted(str(case['idx']))}\t"
+                f"{common.dotted(case['pan'])}\t{case['key']}")
     if k in ('zmk', 'enczmk'):
         return 'key.combine\t' + ','.join(common.dotted(p) for p in case['parts'])
     if k == 'kcv':
-        ct = refdes.tdes_ecb(b'\x00' * 16, binascii.unhexlify(case['key']))
-        return f"kcv\t{ct.hex()}\t{case['n']}"
+        return f"kcv.tdes\t{case['key']}\t{case['n']}"
 
 
 def model_obs(case, resp):
